@@ -160,9 +160,11 @@ def gone (m : Manifest) (aff : List (Nat × List Nat)) : List Nat :=
     | none => false
     | some g => (List.range g.rows.length).all fun j => g.dels.contains j || fa.2.contains j).map (·.1)
 
-/-- `updated_fragments` of an Update: partially deleted fragments and column-rewritten fragments -/
-def updatedIds (aff : List (Nat × List Nat)) (removed : List Nat) (patches : List (Nat × Patch)) : List Nat :=
-  (aff.map (·.1)).filter (fun f => !removed.contains f) ++ patches.map (·.1)
+/-- `updated_fragments` of an Update: partially deleted fragments and column-rewritten fragments (the wholly removed
+    ones are listed too: pruning a fragment that is gone changes nothing, and fields_modified is only non-empty for
+    RewriteColumns updates, which delete nothing) -/
+def updatedIds (aff : List (Nat × List Nat)) (patches : List (Nat × Patch)) : List Nat :=
+  aff.map (·.1) ++ patches.map (·.1)
 
 /-- the fields of the data file of a fragment that stores c1 -/
 def fileFields (g : Frag) : List Nat := if g.split then [0, 1] else [0, 1, 2]
@@ -182,7 +184,7 @@ def build (m : Manifest) : Txn → Except Err Manifest
                                  else (m.frags f).map (modFrag aff patches f))
                  m.nextFrag news,
       nextFrag := m.nextFrag + news.length,
-      indices := prune m.indices (updatedIds aff removed patches) fm }
+      indices := prune m.indices (updatedIds aff patches) fm }
   | .createIndex new removed =>
     .ok { m with indices :=
             (m.indices.filter fun e => !(new.any fun n => n.name == e.name) && !removed.contains e.uuid) ++ new }
@@ -245,6 +247,13 @@ structure Ver where
   m : Manifest
   t : Txn
 
+/-- `finish_delete_update`: the transaction that is recorded is the rebased one — the fragments the merged deletion
+    vectors empty are added to its removed ids -/
+def rebase (m : Manifest) : Txn → Txn
+  | .delete aff removed => .delete aff (removed ++ gone m aff)
+  | .update aff removed patches news fm hit cm => .update aff (removed ++ gone m aff) patches news fm hit cm
+  | t => t
+
 /-- commit_transaction: `hist` is the version chain, newest first; the transaction was built `lag` versions ago. -/
 def commit (hist : List Ver) (lag : Nat) (t : Txn) : Except Err (List Ver) :=
   if (hist.take lag).any (fun v => conflicts t v.t) then .error .retryable
@@ -253,7 +262,7 @@ def commit (hist : List Ver) (lag : Nat) (t : Txn) : Except Err (List Ver) :=
     | [] => .error .invalid
     | v :: rest =>
       match build v.m t with
-      | .ok m' => .ok (⟨m', t⟩ :: v :: rest)
+      | .ok m' => .ok (⟨m', rebase v.m t⟩ :: v :: rest)
       | .error e => .error e
 
 /-! ## the operations of the harness: what the lance builders put into the transaction, from the handle's version -/
